@@ -116,6 +116,22 @@ def monitor_cases(rng, tier, stats):
             guess = "exact"
             nswp = rng.choice([1, 2, 3])
             fam = "/exact-guess-nswp%d" % nswp
+        if c % 8 == 5:
+            # structured family: a user-supplied guess that is EXACTLY orthogonal to the exact product (disjoint support in the last mode):
+            # the projected supercore of the first sweep vanishes although the product does not
+            routine = ["fast_matvec", "dmrg_hadamard"][(c // 8) % 2]
+            cplx = (c // 16) % 2 == 1
+            dt = tn.complex128 if cplx else tn.float64
+            d = rng.choice([3, 4])
+            N = [rng.randint(2, 4) for _ in range(d)]
+            M = [rng.randint(2, 4) for _ in range(d)]
+            RA = [1] + [rng.randint(1, 3) for _ in range(d - 1)] + [1]
+            Rx = [1] + [rng.randint(1, 3) for _ in range(d - 1)] + [1]
+            eps = 10.0 ** rng.uniform(-10, -4)
+            decay = False
+            guess = "orth"
+            nswp = 30
+            fam = "/orthogonal-guess"
         seed = rng.randrange(1 << 30)
         label = "%s/d%d/%s%s%s%s" % (routine, d, "c128" if cplx else "f64", "/decay" if decay else "", "/guess" if guess else "", fam)
         box = {}
@@ -130,6 +146,9 @@ def monitor_cases(rng, tier, stats):
                 g = torchtt.TT(rnd_cores(rng, [[gr[k], M[k], gr[k + 1]] for k in range(d)], dt, False)) if guess else None
                 if guess == "exact":
                     g = (A @ x).round(1e-14)
+                if guess == "orth":
+                    ca = [c_.clone() for c_ in A.cores]; ca[-1][:, 0, :, :] = 0; A = torchtt.TT(ca)          # the product lives on rows >= 1 of the last mode
+                    cg = [c_.clone() for c_ in g.cores]; cg[-1][:, 1:, :] = 0; g = torchtt.TT(cg)            # the guess on row 0 only
                 y = A.fast_matvec(x, eps=eps, initial=g, nswp=nswp, use_cpp=False)
                 exact = dense_of(A).reshape(int(np.prod(M)), -1) @ dense_of(x).reshape(-1)
                 got = dense_of(y).reshape(-1) if isinstance(y, torchtt.TT) and list(y.N) == M and not y.is_ttm else None
@@ -138,6 +157,9 @@ def monitor_cases(rng, tier, stats):
                 g = torchtt.TT(rnd_cores(rng, [[gr[k], N[k], gr[k + 1]] for k in range(d)], dt, False)) if guess else None
                 if guess == "exact":
                     g = (x * y2).round(1e-14)
+                if guess == "orth":
+                    cy = [c_.clone() for c_ in y2.cores]; cy[-1][:, 0, :] = 0; y2 = torchtt.TT(cy)
+                    cg = [c_.clone() for c_ in g.cores]; cg[-1][:, 1:, :] = 0; g = torchtt.TT(cg)
                 y = torchtt.dmrg_hadamard(x, y2, z0=g, eps=eps, nswp=nswp, use_cpp=False)
                 exact = (dense_of(x) * dense_of(y2)).reshape(-1)
                 got = dense_of(y).reshape(-1) if isinstance(y, torchtt.TT) and list(y.N) == N and not y.is_ttm else None
